@@ -120,6 +120,7 @@ static uintptr_t g_text_lo = 0, g_text_hi = 0;
 // >0 while the runtime manipulates its own containers: their allocations must
 // not re-enter the shadow bookkeeping.  Never held across a task switch.
 static int g_busy = 0;
+static const char *g_trace_obj = nullptr;
 struct Busy { Busy() { g_busy++; } ~Busy() { g_busy--; } };
 
 struct MutexM { int owner = -1; VC vc; bool vc_set = false; };
@@ -272,6 +273,7 @@ void init(int ntasks, const Config &cfg) {
     for (int i = 0; i < cfg.pct_d; i++) g_pct_points.push_back(1 + g_rng.below(cfg.pct_k));
     std::sort(g_pct_points.begin(), g_pct_points.end(), std::greater<uint64_t>());
   }
+  g_trace_obj = getenv("ORCSIM_RT_TRACE_OBJ");
   g_text_lo = (uintptr_t)&orcsim_text_begin;
   g_text_hi = (uintptr_t)&orcsim_text_end;
   load_syms();
@@ -383,6 +385,16 @@ static inline bool last_access_by_other(uintptr_t addr) {
 static void shadow_access(uintptr_t addr, size_t size, bool write, uintptr_t pc) {
   Busy busy;
   Task &t = g_tasks[g_cur];
+  if (g_trace_obj) {   // debugging aid: ORCSIM_RT_TRACE_OBJ=<symbol> prints every access to that object
+    std::string on = object_name(addr);
+    if (on == g_trace_obj) {
+      const Sym *os = find_sym(addr, false);
+      fprintf(stderr, "TRACE %s+%lu %s%zu by task %d in %s clk=%u vc=[", on.c_str(), (unsigned long)(addr - os->addr), write ? "W" : "R", size, g_cur,
+              symbolize(pc).c_str(), t.vc.c[g_cur]);
+      for (int i = 0; i < g_ntasks; i++) fprintf(stderr, "%u ", t.vc.c[i]);
+      fprintf(stderr, "]\n");
+    }
+  }
   uint32_t my = mk_epoch(g_cur, t.vc.c[g_cur]);
   for (size_t k = 0; k < size; k++) {
     uintptr_t a = addr + k;
